@@ -31,7 +31,7 @@ def run_both(drv, case):
     io, objs = arrays.run_impl(case)
     LAST_LEAK[0] = arrays.LEAK[0]
     run_both.objs = objs
-    mo = drv.ask(arrays.model_req(case)) if drv is not None else None
+    mo = arrays.model_obs(drv, case) if drv is not None else None
     return arrays.canon(io), (arrays.canon(mo) if mo is not None else None)
 
 
